@@ -151,6 +151,26 @@ CHECKS = {
              "of the same (operation, key, inputs) on any other thread, after any history, and in the sequential reference run.",
         note="Exhaustive for the model; sampled schedules for the code (quick: spqlios-fma, nayuki-portable, fftw; thorough: five back-ends + debug builds). Data races that change neither identities nor results are not observable this way.",
         design="§6 C06"),
+    "C04": dict(
+        category="model_checking",
+        technique="TLA+ spec RingScheme (bit-exact reduced-size TLWE/TGSW, blind rotation with the code's loop structure, extraction, modulus switch, key switch) model-checked by TLC; "
+                  "the same behaviours replayed on the real N = 1024 code through the embeddings x->x*2^(32-W), X->X^(1024/N') and validated row by row by TLC (Table_C04); full-size sweep on trivial key material (Table_C04F)",
+        text="On reduced instances (W = 4..5, N' = 8..16, k in {1,2}, n in {1,2,3}) TLC evaluates the transcribed bootstrapping on every b of the grid, masks over a covering set and three output messages and checks that the phase under the extracted key is exactly "
+             "+mu iff the rounded phase p lies in [0,N), that the key-switched result has the same phase, and that blind-rotate-and-extract with an arbitrary test polynomial returns the p-th coefficient of its anticyclic extension (a design with the test vector rotated "
+             "the wrong way is rejected). Key material of the instance is then dumped by TLC and loaded into the real structures through the two embeddings; the real tfhe_bootstrap_woKS_FFT / _FFT / coefficient-domain variants and tfhe_blindRotateAndExtract(_FFT) run on the embedded inputs "
+             "and TLC recomputes the model for every row and compares the observed phase under the embedded model keys within 256 units of 2^-32. At full size (N = 1024) on trivial key material, where the model state is only p, all 2N rounded phases, both rounding edges, masks steering p next to the "
+             "sign boundaries, n in {1,2,8,630,1030 > N}, k in {1,2} and several (l,Bgbit) are swept; TLC recomputes p with the 32-bit modulus switch and requires +mu iff p in [0,N) and an untouched (zero) output mask.",
+        note="Defect D3 (scratch array sized by N instead of n: heap corruption at n = 1030) was found by the full-size sweep and repaired. Real noisy keys at the real parameters are covered at the phase level by C01/C02. Inputs reaching through the ring embedding lie on the 2N' grid.",
+        design="§6 C04"),
+    "C09": dict(
+        category="model_checking",
+        technique="RingScheme external product / CMux / blind rotation model-checked by TLC (exact equalities on noiseless rows); real coefficient-domain and FFT-domain routines replayed through the embeddings and validated by TLC (Table_C04 rows ext/rot)",
+        text="TLC checks on the reduced instances that phase(ExtProd(TGSW(m), c)) = m * phase(c) exactly for m in {0, 1, -1, X^j (every j), a small-norm polynomial}, every value and position of a chosen body coefficient and three mask sets, for k = 1 and 2, and that blind rotation "
+             "multiplies the accumulator phase by X^(sum bara_i s_i) for exponent vectors incl. 0, 1, N'-1, N', N'+1, 2N'-1 entries. The TGSW samples, TLWE samples and bootstrapping key of the instance are embedded into the real structures; tGswExternMulToTLwe, tGswFFTExternMulToTLwe, tGswExternProduct, "
+             "tfhe_blindRotate, tfhe_blindRotate_FFT (whole and one key element at a time) run on them; TLC recomputes the model per row and requires every coefficient of the observed phase on the embedded sub-ring to match within 256 units of 2^-32 and nothing to leak outside the sub-ring. "
+             "Since FFT images are produced by the real tGswToFFTConvert from the coefficient-domain samples, agreement of both variants with the same model shows the FFT key is a faithful image.",
+        note="The noisy-row clause (statistical bound) is observed through the gate-output statistics of C02, not here. Exactness relies on LL*BGB = W in the replay instances (no truncation).",
+        design="§6 C09"),
 }
 
 HOOK_COMMITS = ["f8e83e6", "cb256e3"]
